@@ -95,7 +95,7 @@ def julianday_to_datetime(jd: float) -> datetime.datetime:
         a = z
     else:
         alpha = int((z - 1867216.25) / 36524.25)
-        a = z + 1 + alpha + int(alpha / 4.0)
+        a = z + 1 + alpha - int(alpha / 4.0)
 
     b = a + 1524
     c = int((b - 122.1) / 365.25)
